@@ -873,6 +873,114 @@ func installBuiltins(in *Interp, p *Package) {
 		return nil, in.errf("cannot convert type to bytes")
 	})
 
+
+	B("format-string", 1, -1, func(in *Interp, env *Env, a []*V) (*V, *Err) {
+		if a[0].T != TStr {
+			return nil, in.errf("first argument is not a string")
+		}
+		f, vals := a[0].S, a[1:]
+		var out strings.Builder
+		seq, mode := 0, 0 // mode 1 sequential, 2 positional
+		for i := 0; i < len(f); {
+			c := f[i]
+			switch {
+			case c == '}':
+				if i+1 < len(f) && f[i+1] == '}' {
+					out.WriteByte('}')
+					i += 2
+					continue
+				}
+				return nil, in.errf("unexpected closing brace")
+			case c == '{':
+				if i+1 >= len(f) {
+					return nil, in.errf("unclosed brace")
+				}
+				if f[i+1] == '{' {
+					out.WriteByte('{')
+					i += 2
+					continue
+				}
+				j := strings.IndexByte(f[i+1:], '}')
+				if j < 0 {
+					return nil, in.errf("unclosed brace")
+				}
+				inner := strings.TrimSpace(f[i+1 : i+1+j])
+				idx := 0
+				if inner == "" {
+					if mode == 2 {
+						return nil, in.errf("cannot mix placeholder styles")
+					}
+					mode, idx = 1, seq
+					seq++
+				} else {
+					n, err := strconv.Atoi(inner)
+					if err != nil || n < 0 {
+						return nil, in.errf("invalid format directive")
+					}
+					if mode == 1 {
+						return nil, in.errf("cannot mix placeholder styles")
+					}
+					mode, idx = 2, n
+				}
+				if idx >= len(vals) {
+					return nil, in.errf("not enough values")
+				}
+				v := vals[idx]
+				if v.T == TStr && !v.Q {
+					out.WriteString(v.S)
+				} else {
+					txt, ok := Print(v)
+					if !ok {
+						in.Unsupported = "format-string of a closure"
+					}
+					out.WriteString(txt)
+				}
+				i += j + 2
+			default:
+				out.WriteByte(c)
+				i++
+			}
+		}
+		return Str(out.String()), nil
+	})
+
+
+	B("append-bytes", 2, 2, func(in *Interp, env *Env, a []*V) (*V, *Err) {
+		if a[0].T != TBytes {
+			return nil, in.errf("first argument is not bytes")
+		}
+		var extra []byte
+		switch a[1].T {
+		case TStr:
+			extra = []byte(a[1].S)
+		case TBytes:
+			extra = a[1].B
+		default:
+			x, e := byteCells(in, a[1])
+			if e != nil {
+				return nil, e
+			}
+			extra = x
+		}
+		return &V{T: TBytes, B: append(append([]byte{}, a[0].B...), extra...), Pos: -1}, nil
+	})
+	// get-default and curry-function are documented by their equivalences
+	def(p, "get-default", macroB("get-default", 3, 3, func(in *Interp, env *Env, a []*V) (*V, *Err) {
+		// (get-default m k d) == (let ((mm m) (kk k)) (if (key? mm kk) (get mm kk) d)) with fresh names
+		in.gensym += 2
+		mm, kk := Sym(fmt.Sprintf("gen%08d", in.gensym-1)), Sym(fmt.Sprintf("gen%08d", in.gensym))
+		return Quote(List([]*V{Sym("lisp:let"), List([]*V{List([]*V{mm, a[0]}), List([]*V{kk, a[1]})}),
+			List([]*V{Sym("lisp:if"), List([]*V{Sym("lisp:key?"), mm, kk}), List([]*V{Sym("lisp:get"), mm, kk}), a[2]})})), nil
+	}))
+	def(p, "curry-function", macroB("curry-function", 1, -1, func(in *Interp, env *Env, a []*V) (*V, *Err) {
+		// (curry-function f a...) == (lambda (&rest rest) (apply f a... rest))
+		in.gensym++
+		r := Sym(fmt.Sprintf("gen%08d", in.gensym))
+		call := append([]*V{Sym("lisp:apply"), a[0]}, a[1:]...)
+		call = append(call, r)
+		return List([]*V{Sym("lambda"), List([]*V{Sym("&rest"), r}), List(call)}), nil
+	}))
+
 	// ---- maps ----
 	B("sorted-map", 0, -1, func(in *Interp, env *Env, a []*V) (*V, *Err) {
 		if len(a)%2 != 0 {
